@@ -440,7 +440,7 @@ theorem getLike_get {s0 : St} {fuel : Nat} {P : St → Prop}
   rel := fun x hx => (hP x hx).1
   step := fun x m hb => get_step fuel x m (Or.inl hb)
   inst := fun _ _ _ h => get_inst h
-  nil := fun x m hx hn => get_nil (hP x hx).1 (hP x hx).2 hn
+  nil := fun x _ hx hn => get_nil (hP x hx).1 (hP x hx).2 hn
 
 /-- soundness: resolutions only ever store instances of `Good` names -/
 theorem get_rel {s0 : St} : ∀ (fuel : Nat) (s : St) (n : Name), Rel s0 s → FuelOK fuel s →
